@@ -190,7 +190,7 @@ def oracle(case, impl_out, reply):
     if [r for r in u['read_reports']] != [['repeated', k] for k in spec['repeated']]:
         fails.append('read_first_wins: reported %r, repeated keys are %r' % (u['read_reports'], spec['repeated']))
     if u['resolved'] != spec['resolved']:
-        which = 'expanded_spec' if u['resolved'][:len(spec['expanded'])] != spec['expanded'] else 'threshold'
+        which = 'expanded_spec' if u['expanded'] != spec['expanded'] else 'threshold'
         fails.append('%s: add_extra_citations gives %r, the property demands %r' % (which, u['resolved'], spec['resolved']))
     low = _low(u['resolved'])
     if len(set(low)) != len(low):
